@@ -586,37 +586,86 @@ def module_level(rng, nvars=None):
 
 def module_level_table():
     """The systematic part of the family: first binding of every kind with a definite type x every construct whose body
-    may not run exactly once x every kind of the re-bound value x (no consumer | consumer def using the final value)."""
+    may not run exactly once (and, for the model tie, once / straight-line re-binding) x every kind of the re-bound value
+    x (no consumer | consumer def using the final value).  Every row carries the same module as a term of
+    coq/Typing/IfaceModel.v (`level` = variable 0, loop variable = 1, consumer def = 2)."""
     out = []
     vals = {"str": '"low"', "tuple": '("a", "b")', "bool": "True", "none": "None", "int": "10", "list": "[1, 2]", "dict": '{"k": 1}',
             "struct": "struct(a = 1)", "fn1": "lambda q: q", "fn0": '"x".upper'}
     first = dict(vals, fn1="len")
+    cval = {"str": "EVal KStr true", "tuple": "EVal KTuple true", "bool": "EVal KBool true", "none": "EVal KNone true",
+            "int": "EVal KOther false", "list": "EVal KOther false", "dict": "EVal KOther false", "struct": "EVal KOther false",
+            "fn1": "EVal KFn false", "fn0": "EVal KFn true"}
+    cfirst = dict(cval, fn1="EVal KFn true")
     for k1 in DEFINITE + ("def",):
-        for cons in ("if-taken", "if-skipped", "else-taken", "for-1", "for-0", "for-if", "if-def"):
+        for cons in ("if-taken", "if-skipped", "else-taken", "for-1", "for-0", "for-if", "if-def", "straight", "straight-def", "once"):
             for k2 in ML_KINDS:
-                if cons == "if-def" and k2 != "fn1":
+                if cons in ("if-def", "straight-def", "once") and k2 != "fn1":
                     continue
                 head = "def level(q):\n    return q\n" if k1 == "def" else "level = %s\n" % first[k1]
+                chead = "SDef 0" if k1 == "def" else "SAssign 0 (%s)" % cfirst[k1]
                 kk1 = "fn1" if k1 == "def" else k1
                 rb = "level = %s" % vals[k2]
+                crb = "SAssign 0 (%s)" % cval[k2]
                 if cons == "if-taken":
-                    body, fin = 'if len("abc") > 2:\n    %s\n' % rb, k2
+                    body, fin, cbody = 'if len("abc") > 2:\n    %s\n' % rb, k2, "SIf (%s) SSkip" % crb
                 elif cons == "if-skipped":
-                    body, fin = 'if len("a") > 2:\n    %s\n' % rb, kk1
+                    body, fin, cbody = 'if len("a") > 2:\n    %s\n' % rb, kk1, "SIf (%s) SSkip" % crb
                 elif cons == "else-taken":
-                    body, fin = 'if len("a") > 2:\n    pass\nelse:\n    %s\n' % rb, k2
+                    body, fin, cbody = 'if len("a") > 2:\n    pass\nelse:\n    %s\n' % rb, k2, "SIf SSkip (%s)" % crb
                 elif cons == "for-1":
-                    body, fin = "for _i in [3, 5, 4]:\n    %s\n" % rb, k2
+                    body, fin, cbody = "for _i in [3, 5, 4]:\n    %s\n" % rb, k2, "SFor 1 KOther (%s)" % crb
                 elif cons == "for-0":
-                    body, fin = "for _i in []:\n    %s\n" % rb, kk1
+                    body, fin, cbody = "for _i in []:\n    %s\n" % rb, kk1, "SFor 1 KOther (%s)" % crb
                 elif cons == "for-if":
-                    body, fin = "for _i in [3, 5]:\n    if _i > 4:\n        %s\n" % rb, k2
+                    body, fin, cbody = "for _i in [3, 5]:\n    if _i > 4:\n        %s\n" % rb, k2, "SFor 1 KOther (SIf (%s) SSkip)" % crb
+                elif cons == "if-def":
+                    body, fin, cbody = 'if len("abc") > 2:\n    def level(q):\n        return [q]\n', "fn1", "SIf (SDef 0) SSkip"
+                elif cons == "straight":
+                    body, fin, cbody = rb + "\n", k2, crb
+                elif cons == "straight-def":
+                    body, fin, cbody = "def level(q):\n    return [q]\n", "fn1", "SDef 0"
                 else:
-                    body, fin = 'if len("abc") > 2:\n    def level(q):\n        return [q]\n', "fn1"
+                    body, fin, cbody = "", kk1, "SSkip"
                 for use in (False, True):
                     src = head + body
+                    coq = "SSeq (%s) (%s)" % (chead, cbody)
                     if use:
                         src += _ml_use("level", fin, len(out)) + "use_level()\n"
+                        coq = "SSeq (%s) (SDef 2)" % coq
                     out.append({"src": src, "id": "%s:%s:%s:%s" % (k1, cons, k2, "use" if use else "bare"), "final": fin,
-                                "diff": fin != kk1})
+                                "diff": fin != kk1, "coq": coq, "branchy": cons not in ("straight", "straight-def", "once")})
+    return out
+
+
+IFACE_CODES = {"str": 0, "tuple": 1, "bool": 2, "None": 3}
+
+
+def iface_kind_codes(text):
+    """Rendered interface type -> None (typing.Any) | set of kind codes of IfaceModel.kind_code | "?" (outside the model)."""
+    if text == "typing.Any":
+        return None
+    parts, depth, cur = [], 0, ""
+    i = 0
+    while i < len(text):
+        c = text[i]
+        depth += c in "([{"
+        depth -= c in ")]}"
+        if depth == 0 and text.startswith(" | ", i):
+            parts.append(cur)
+            cur = ""
+            i += 3
+            continue
+        cur += c
+        i += 1
+    parts.append(cur)
+    out = set()
+    for p in parts:
+        p = p.strip()
+        if p in IFACE_CODES:
+            out.add(IFACE_CODES[p])
+        elif p.startswith("def(") or p == "function":
+            out.add(4)
+        else:
+            return "?"
     return out
